@@ -20,6 +20,7 @@ func c01Layers(c *Ctx) []sweepLayer {
 			{"L1", GenOpts{OneGate: true}, 1, all},
 			{"L2", GenOpts{OneGate: true, LeafSet: 2}, 2, cov},
 			{"L3", GenOpts{OneGate: true, LeafSet: 2, Reps: true}, 3, four},
+			{"scale", GenOpts{Scale: true, ScaleThorough: true}, 0, coveringFlags8(ns)},
 		}
 	}
 	return []sweepLayer{
@@ -27,6 +28,7 @@ func c01Layers(c *Ctx) []sweepLayer {
 		{"L0-leaves", GenOpts{OneGate: true}, 0, all},
 		{"L1", GenOpts{OneGate: true, LeafSet: 1}, 1, coveringFlags8(ns)},
 		{"L2", GenOpts{OneGate: true, LeafSet: 2, Slots: []int{0, 4, 12}}, 2, four[:2]},
+		{"scale", GenOpts{Scale: true}, 0, four},
 	}
 }
 
